@@ -6,7 +6,7 @@ import symtable
 
 from .common import *  # noqa: F403
 from ..loader import ancestors
-from ..astutil import assignments_to, iter_stmts, walk_local
+from ..astutil import assigned_names, assignments_to, iter_stmts, walk_local
 
 HOOKS = "hooks.py"
 
@@ -591,6 +591,40 @@ def r3_all_scopes(chk: Check) -> None:
                 chk.undecided("C19.R3", fn, construct, "applications are not threaded through one variable in a recognised way", fn.loc())
 
 
+def r3c_container_through_dispatch(chk: Check) -> None:
+    chk.rule("C19.R3c", "MUST-PASS(container value, hook dispatch): in every spec function that hands a container strategy to apply_to_all_dispatchers, each value the function returns is computed from that call's result (def-use closure) - a return that bypasses it yields a container no before_generate / filter / map / flatmap hook of any scope has seen", floor=3)
+    P = chk.project
+    n = 0
+    for fn in P.all_functions():
+        if not fn.module.relpath.startswith("specs/"):
+            continue
+        sites = [c for c in body_calls(fn) if last_attr(c) == "apply_to_all_dispatchers"]
+        if not sites:
+            continue
+        n += 1
+        tainted: set[str] = set()
+        changed = True
+        while changed:
+            changed = False
+            for s in walk_body(fn.node):
+                if isinstance(s, (ast.Assign, ast.AnnAssign, ast.AugAssign)) and getattr(s, "value", None) is not None:
+                    v = s.value
+                    if any(c in sites for c in ast.walk(v) if isinstance(c, ast.Call)) or names_in(v) & tainted:
+                        tgts = s.targets if isinstance(s, ast.Assign) else [s.target]
+                        for t_ in tgts:
+                            new_names = assigned_names(t_) - tainted
+                            if new_names:
+                                tainted |= new_names
+                                changed = True
+        for r in walk_body(fn.node):
+            if not isinstance(r, ast.Return) or r.value is None:
+                continue
+            through = any(c in sites for c in ast.walk(r.value) if isinstance(c, ast.Call)) or bool(names_in(r.value) & tainted)
+            chk.decide(through, "C19.R3c", fn, f"return {unparse(r.value, 60)} derives from apply_to_all_dispatchers", "this return hands out a container value that never went through the hook dispatchers: hooks whose filters match the operation are skipped for it", fn.loc(r))
+    if n < 3:
+        chk.undecided("C19.R3c", "<discovery>", f"functions={n}", "fewer dispatching functions than confirmed by hand (3)")
+
+
 def r3b_fold_over_hooks(chk: Check) -> None:
     chk.rule("C19.R3b", "FOLD(hooks of one dispatcher): wherever a loop over `get_all_by_name(...)` rebinds a strategy (`S = hook(ctx, S)`, `S = S.filter(hook)` ...), the new value is computed from the CURRENT value of the same variable - an update that reads another variable (the enclosing function's strategy, the parameter as it came in) restarts from the beginning on every iteration, so only the last registered hook has an effect and unregistering it resurrects the one before", floor=8)
     P = chk.project
@@ -817,4 +851,4 @@ def r7_memo(chk: Check) -> None:
 
 
 def rules(tier: str) -> list:  # type: ignore[type-arg]
-    return [r1_cell, r2_hook_loops, r2b_should_skip, r3_all_scopes, r3b_fold_over_hooks, r4_auth, r5_proxy_forwarding, r6_explicit_cases_pass_hooks, r7_memo]
+    return [r1_cell, r2_hook_loops, r2b_should_skip, r3_all_scopes, r3b_fold_over_hooks, r3c_container_through_dispatch, r4_auth, r5_proxy_forwarding, r6_explicit_cases_pass_hooks, r7_memo]
